@@ -2,6 +2,7 @@
 # offline setup: overlay venv on /venv (repo deps: numpy, lxml, pytest) + z3-solver (+ crosshair-tool) from the wheelhouse
 set -e
 cd "$(dirname "$0")"
+HERE="$(pwd)"
 V=/verif/.venv
 if [ ! -x $V/bin/python ] || ! $V/bin/python -c 'import z3, numpy, lxml' 2>/dev/null; then
   rm -rf $V
